@@ -84,6 +84,9 @@ func processVsysPairs(c1, c2 *PanConfig, f func(v1, v2 *panVsys) error) error {
 }
 
 func (c *PanConfig) getDevName() string {
+	if c.Devices == nil || len(c.Devices.Entries) == 0 {
+		return ""
+	}
 	return c.Devices.Entries[0].Hostname
 }
 
